@@ -1094,6 +1094,7 @@ func init() {
 			{Name: "REFLINE-FIELDS", What: "sam.referenceLine installs the reference built from an @SQ line in the header – appended, or in place of a held one – only after it has seen both SN and LN (added for a defect of the unchanged tree, repaired 8e75300)", Floor: 1, Run: ruleReflineFields},
 			{Name: "NAME-STORE", What: "the key of a header's name table – Reference.name, ReadGroup.name, Program.uid – is written only into an object made in the same function or together with the owner's table (on every path: owner nil, or the table entry for the new name made): who-may-write, every store in package sam (added for a defect of the unchanged tree, repaired 6ed78f3: Set(SN)/Set(ID) bypassed SetName)", Floor: 6, Run: ruleNameStore},
 			{Name: "URI-KEPT", What: "a function of package sam that parses a UR value holds the URL as url.Parse returned it – no field of it is assigned: the scheme rewrite to file lost https and turned a relative path into a host (added for a defect of the unchanged tree)", Floor: 2, Run: ruleURIKept},
+			{Name: "REF-COUNT", What: "sam.readRefRecords reads as many reference records as the binary header's count says (shared with C05)", Floor: 1, Run: ruleRefCount},
 			{Name: "PTR-EQ", What: "package sam never compares two url.URL by pointer, only with nil: references parsed, built or cloned separately must be able to compare equal", Floor: 3, Run: rulePtrEq},
 			{Name: "READ-FULL", What: "Header.DecodeBinary and readRefRecords never call Read on the io.Reader they were given: a short read is not a truncated header (io.ReadFull / binary.Read)", Floor: 2, Run: ruleHeaderReadFull},
 			{Name: "COUPLED-HEADER", What: "every insertion, adoption, replacement, removal, renumbering and renaming of a header item keeps owner, id = index and the name table in step; id/owner are assigned only in reviewed functions; Remove* guards test the container they splice", Floor: 60, Run: ruleCoupledHeader},
